@@ -1,7 +1,15 @@
 // C17: work of the packrat parser (memo-table entries, via the guarded hook) and CPU time on input families at n, 2n, 4n.
 use crate::{parser, tokenizer, util};
 use serde_json::json;
-use std::time::{Duration, Instant};
+use std::time::Duration;
+
+// CPU time of the calling thread in microseconds (wall time would make the growth ratios depend on the load of the machine)
+fn thread_cpu_us() -> u128 {
+    let mut ts = libc::timespec { tv_sec: 0, tv_nsec: 0 };
+    // SAFETY: plain syscall writing into a local struct
+    unsafe { libc::clock_gettime(libc::CLOCK_THREAD_CPUTIME_ID, &mut ts) };
+    ts.tv_sec as u128 * 1_000_000 + ts.tv_nsec as u128 / 1000
+}
 
 fn family(name: &str, n: usize) -> String {
     let rep = |s: &str, k: usize| s.repeat(k);
@@ -80,20 +88,20 @@ pub fn case(line: &str) -> String {
     let (mut work, mut hits, mut ntok) = (0, 0, 0);
     let mut panic = None;
     for _ in 0..3 {
-        let t0 = Instant::now();
+        let t0 = thread_cpu_us();
         let toks = match util::guarded(|| tokenizer::tokenize(None, &text)) {
             Ok(Ok(t)) => t,
             Ok(Err(_)) => vec![],
             Err(p) => { panic = Some(p); vec![] }
         };
-        best_lex = best_lex.min(t0.elapsed().as_micros());
+        best_lex = best_lex.min(thread_cpu_us() - t0);
         ntok = toks.len();
         reset();
-        let t1 = Instant::now();
+        let t1 = thread_cpu_us();
         if let Err(p) = util::guarded(|| { let _ = parser::parse(None, &text, &toks[..], &[]); }) {
             panic = Some(p);
         }
-        best_parse = best_parse.min(t1.elapsed().as_micros());
+        best_parse = best_parse.min(thread_cpu_us() - t1);
         let (e, h) = counters();
         work = e;
         hits = h;
@@ -113,7 +121,7 @@ pub fn record(args: &[String]) {
     let mut n = maxn / 8;
     while n <= maxn && !alive.is_empty() {
         let items: Vec<String> = alive.iter().map(|f| json!({"family": f, "n": n}).to_string()).collect();
-        let answers = crate::sup::run_batched("work", &[], &items, Duration::from_secs(limit), 1);
+        let answers = crate::sup::run_cpu_limited("work", &[], &items, Duration::from_secs(limit));
         let mut next = vec![];
         for (f, a) in alive.iter().zip(answers) {
             match a {
